@@ -1,7 +1,7 @@
 //verif:pkg pkg/core
 //verif:use store,corehelp
-//verif:assume repository r with three (thorough: four) bundle ids in id order, each absent / committed (descriptor + 2 file lists) / leftover of an interrupted upload (file lists, no descriptor); a semver-like label v1.0.0 and a plain label latest, each absent or pointing at one of the committed bundles; retain-N 1..2 (thorough 1..3); retain-tags in {none, all labels, semver labels}; a second repository r2 whose name extends r's; stores are the in-memory model (deleting a missing key is an error, as on GCS; thorough: also the silent variant)
-//verif:cover VerifC10Squash leftover-newer-than-latest-commit label-retained label-removed nothing-to-squash
+//verif:assume repository r with three (thorough: four) bundle ids in id order, each absent / committed (descriptor + 2 file lists) / leftover of an interrupted upload (file lists, no descriptor); a semver-like label v1.0.0 and a plain label latest, each absent or pointing at one of the committed bundles; retain-N 1..2 (thorough 1..3); retain-tags in {none, all labels, semver labels, both options together}; a second repository r2 whose name extends r's; stores are the in-memory model (deleting a missing key is an error, as on GCS; thorough: also the silent variant)
+//verif:cover VerifC10Squash both-tag-options leftover-newer-than-latest-commit label-retained label-removed nothing-to-squash
 package core
 
 import (
@@ -63,13 +63,18 @@ func VerifC10Squash() {
 		maxN = 3
 	}
 	N := vChoose("retainN", maxN) + 1
-	mode := vChoose("retainTags", 3) // 0 none, 1 all labels, 2 semver labels
+	mode := vChoose("retainTags", 4) // 0 none, 1 all labels, 2 semver labels, 3 both options together (= all labels)
 	opts := []Option{WithRetainNLatest(N)}
 	if mode == 1 {
 		opts = append(opts, WithRetainTags(true))
 	}
 	if mode == 2 {
 		opts = append(opts, WithRetainSemverTags(true))
+	}
+	if mode == 3 {
+		opts = append(opts, WithRetainSemverTags(true), WithRetainTags(true))
+		mode = 1
+		vCover("both-tag-options")
 	}
 	beforeM, beforeV := vSnapshot(meta), vSnapshot(vmeta)
 
